@@ -144,6 +144,22 @@ func grammarMain(r *run.Runner, spans bool) {
 		s := pr.Uniform(" ")
 		s[0], s[len(s)-1] = " \n// lead\n", "\t// trail"
 		grammarCase(w, pr.Layout(s), spans, "layout")
+		// the same text with white space added around it, directly after the text itself (a tree or a message that
+		// is remembered under a normalised text shows here; the replay keeps the preceding inputs)
+		for _, sep := range []string{" ", ""} {
+			for _, pad := range []string{"\n", "\t", " ", "\r\n", "\n\n  "} {
+				for k := 0; k < 4; k++ {
+					s := pr.Uniform(sep)
+					if k&1 != 0 {
+						s[0] = pad
+					}
+					if k&2 != 0 {
+						s[len(s)-1] = pad
+					}
+					grammarCase(w, pr.Layout(s), spans, "layout-padded")
+				}
+			}
+		}
 		gaps := len(pr.Lexemes) - 1
 		for g := 1; g <= gaps; g++ {
 			for _, sep := range layoutSeps[1:] {
